@@ -748,6 +748,8 @@ func init() {
 				out = append(out, Inst{Pkg: "knxnet", Fn: "HarnessC16UDP", Args: []int64{k, k0, 0}})
 			}
 		}
+		out = append(out, Inst{Pkg: "knxnet", Fn: "HarnessC16UDP", Args: []int64{2, 4, 0, 5}, Note: "two bus-monitor datagrams: decoded payloads must not alias the reused receive buffer"},
+			Inst{Pkg: "knxnet", Fn: "HarnessC16UDP", Args: []int64{2, 3, 0, 5}, Note: "two L_Data datagrams"})
 		out = append(out, Inst{Pkg: "knxnet", Fn: "HarnessC16TCPBig", Args: []int64{4200}, Unwind: 20000, Note: "a frame larger than bufio's 4096-byte buffer"})
 		for _, L := range []int64{1, 6, 8, 10, 12} {
 			out = append(out, Inst{Pkg: "knxnet", Fn: "HarnessC16UDP", Args: []int64{1, 3, L}, Note: "arbitrary datagram first, buffer reused"})
